@@ -26,7 +26,7 @@ N = {"quick": (8, 150), "thorough": (16, 1200)}
 FLOORS = {"mixed-direction": 0.2, "one-sided-cursive": 0.15, "categories": 0.155, "carets": 0.254, "caret-at-zero": 0.03, "user-gdef": 0.08, "writer-instances-reused": 0.099}  # a third of the measured frequency: a starving generator is a harness error, sampling noise is not
 
 POOL = [("A", 0x41), ("a", 0x61), ("n", 0x6E), ("o", 0x6F), ("be-cy", 0x431), ("alef-ar", 0x627), ("beh-ar", 0x628), ("lam-ar", 0x644), ("bet-hb", 0x5D1), ("period", 0x2E),
-        ("hyphen", 0x2D), ("space", 0x20), ("one", 0x31), ("f_i", None), ("lam_alef-ar", 0xFEFB), ("acutecomb", 0x301), ("unenc", None),
+        ("hyphen", 0x2D), ("space", 0x20), ("one", 0x31), ("dual", (0x71, 0x62C)), ("f_i", None), ("lam_alef-ar", 0xFEFB), ("acutecomb", 0x301), ("unenc", None),
         ("a.alt", None), ("beh-ar.fina", None), ("n.fina", None), ("o_hyphen_o", None), ("period.alt", None), ("a.swash", None), ("a.bold", None)]
 DS_RULE_ALTS = ("a.swash", "a.bold")  # reachable only through designspace rules (two rules with the same left-hand glyph)
 # substitutions the generator may write: (inputs, output, fea text)
@@ -47,8 +47,10 @@ def _font(draw, force_names=None):
     names = [n for n in names if n[0] not in RULES or all(i in have for i in RULES[n[0]][0])]
     glyphs = []
     for n, u in names:
-        g = {"name": n, "width": 500, "unicodes": [u] if u else [], "contours": [[[0, 0, "line"], [100, 0, "line"], [100, 100, "line"]]], "anchors": []}
-        r = draw(st.integers(0, 9))
+        g = {"name": n, "width": 500, "unicodes": (list(u) if isinstance(u, tuple) else [u]) if u else [], "contours": [[[0, 0, "line"], [100, 0, "line"], [100, 100, "line"]]], "anchors": []}
+        if isinstance(u, tuple) and draw(st.booleans()):
+            g["unicodes"].reverse()  # a glyph encoded at a left-to-right and a right-to-left code point
+        r = draw(st.integers(0, 9)) if n != "dual" else draw(st.integers(0, 5))
         if r <= 4:
             sfxs = draw(st.lists(st.sampled_from(["", "", "", ".LTR", ".RTL", ".foo", ".2.LTR", ".alt.RTL", ".2.RTL", ".alt.LTR", ".1", ".narrow", ".top", ".y", ".end.RTL"]), min_size=1, max_size=2, unique=True))
             for sfx in sfxs:
@@ -79,16 +81,18 @@ def _font(draw, force_names=None):
     alts = [n for n in gn if n in RULES]
     if alts:
         fea += "feature calt {\n" + "".join("  %s\n" % RULES[n][1] for n in alts) + "} calt;\n"
-    user = draw(st.sampled_from(["", "", "", "classes", "carets", "both"]))
+    user = draw(st.sampled_from(["", "", "", "classes", "carets", "both", "both-carets-first"]))
     exported = [n for n in gn if n not in skip]
     if user:
         fea += "table GDEF {\n"
-        if user in ("classes", "both"):
+        stmts = []
+        if user.startswith(("classes", "both")):
             b = [n for n in exported if "comb" not in n][:3]
             m = [n for n in exported if "comb" in n]
-            fea += "  GlyphClassDef [%s], , [%s], ;\n" % (" ".join(b), " ".join(m))
-        if user in ("carets", "both") and exported:
-            fea += "  LigatureCaretByPos %s 123;\n" % exported[0]
+            stmts.append("  GlyphClassDef [%s], , [%s], ;\n" % (" ".join(b), " ".join(m)))
+        if user.startswith(("carets", "both")) and exported:
+            stmts.append("  LigatureCaretByPos %s 123;\n" % exported[0])
+        fea += "".join(stmts[::-1] if user == "both-carets-first" else stmts)
         fea += "} GDEF;\n"
     spec["features"] = fea
     spec["alts"] = alts
@@ -168,7 +172,7 @@ def run_case(case, ctx):
             if "public.openTypeCategories" in stale["lib"]:
                 stale["lib"]["public.openTypeCategories"] = {k_: "ligature" for k_ in list(stale["lib"]["public.openTypeCategories"])[:1]}
             else:
-                stale["lib"]["public.openTypeCategories"] = {spec["glyphs"][0]["name"]: "mark"}
+                stale["lib"]["public.openTypeCategories"] = {(spec["glyphs"][0]["name"] if spec["glyphs"] else ".notdef"): "mark"}
             for nm_, sp_, w_ in (("bold", stale, 1000), ("regular", strip(spec), 0)):
                 sd = SourceDescriptor()
                 sd.font, sd.name, sd.location = S.build(sp_, module), nm_, {"Weight": w_}
@@ -204,7 +208,7 @@ def run_case(case, ctx):
     VALID = ("base", "mark", "ligature", "component", "unassigned")
     valid = {k: v for k, v in (cats or {}).items() if v in VALID}
     got = dict(t["GDEF"].table.GlyphClassDef.classDefs) if "GDEF" in t and t["GDEF"].table.GlyphClassDef else {}
-    if user in ("classes", "both"):
+    if user.startswith(("classes", "both")):
         exported = [g["name"] for g in spec["glyphs"] if g["name"] in order]
         b_ = [n for n in exported if "comb" not in n][:3]
         m_ = [n for n in exported if "comb" in n]
@@ -239,7 +243,7 @@ def run_case(case, ctx):
         for n, lg in zip(l.Coverage.glyphs, l.LigGlyph):
             got_carets[n] = [c.Coordinate for c in lg.CaretValue]
     exported = [g["name"] for g in spec["glyphs"] if g["name"] in order]
-    if user in ("carets", "both") and exported:
+    if user.startswith(("carets", "both")) and exported:
         ctx.label("user-gdef")
         # a user block with carets: the writer leaves the caret list alone
         if got_carets != {exported[0]: [123]}:
